@@ -36,9 +36,11 @@ fn main() {
                 eprintln!("machinery: unknown property {id}");
                 std::process::exit(2)
             });
-            if let Err(why) = obs::selfcheck() {
-                eprintln!("machinery: {why}");
-                std::process::exit(2)
+            if prop.observes_units() {
+                if let Err(why) = obs::selfcheck() {
+                    eprintln!("machinery: {why}");
+                    std::process::exit(2)
+                }
             }
             let deadline = std::env::var("VH_DEADLINE_S").ok().and_then(|s| s.parse().ok()).unwrap_or(tier.pick(45, 900));
             let nshards = std::env::var("VH_SHARDS").ok().and_then(|s| s.parse().ok()).unwrap_or(16);
